@@ -25,6 +25,7 @@ def sh(cmd, cwd=None):
 def main():
     args = [a for a in sys.argv[1:] if not a.startswith("--")]
     all_checks = "--all-checks" in sys.argv
+    compact = "--compact" in sys.argv
     seeds = sorted(os.listdir(os.path.join(VERIF, "seeded")))
     if args:
         seeds = [s for s in seeds if s in args]
@@ -69,8 +70,12 @@ def main():
             summary.append((sid, prop, status, "; ".join(rep)[:400] + (" | also fired: %s" % others if others else "")))
         finally:
             shutil.rmtree(scratch, ignore_errors=True)
+    if all_checks and not args:
+        with open(os.path.join(VERIF, "seeded", "RESULTS.json"), "w") as fh:
+            json.dump([{"seed": a, "property": b, "status": c, "detail": d_[:600]} for a, b, c, d_ in summary], fh, indent=1)
     for s in summary:
-        print("%-28s %-4s %-14s %s" % s)
+        also = s[3].split("| also fired:")[1].strip() if "| also fired:" in s[3] else ""
+        print("%-8s %-4s %-22s %s %s" % (s[0], s[1], s[2][:22], ("also=" + also) if also else "", "" if compact else s[3][:300]))
     missed = [s for s in summary if not s[2].startswith("DETECTED")]
     print("%d seeds, %d detected" % (len(summary), len(summary) - len(missed)))
 
